@@ -115,6 +115,29 @@ func PrintExpr(e Expr) string {
 
 func (p *printer) fn(f *Func) {
 	st := p.here()
+	if len(f.Annots) > 0 {
+		p.w("#[")
+		for i, a := range f.Annots {
+			if i > 0 {
+				p.w(", ")
+			}
+			if a.Trig == nil {
+				p.w(a.Ident)
+				continue
+			}
+			ts := p.here()
+			p.w("trigger " + a.Trig.Kind + " " + a.Trig.Event + "(")
+			for j, x := range a.Trig.Args {
+				if j > 0 {
+					p.w(", ")
+				}
+				p.expr(x, 0)
+			}
+			p.w(")")
+			p.mark(a.Trig, ts)
+		}
+		p.w("]\n")
+	}
 	if f.Pub {
 		p.w("pub ")
 	}
